@@ -189,6 +189,29 @@ def scalar_fn(b):
     return b.kind != "closure" and b.arg_count >= 1 and all(b.local_ty(i) in SCALARS for i in range(1, b.arg_count + 1))
 
 
+_VCTOR = {}
+
+
+def value_ctors(crate):
+    """Constructors of the value model (`Value::symbol(name)`, `Value::keyword`, `From<..> for Value`, ...): loop-free
+    functions of value/mod.rs and value/from.rs that return a Value.  A lexer that builds its atoms as Values in place
+    (`Token::Atom(Value::symbol(s))`) is followed into them so that the kind of the atom is seen."""
+    key = id(crate)
+    if key not in _VCTOR:
+        from . import cfg
+        out = set()
+        for f in crate.fns:
+            if f.kind == "closure" or not (f.file.endswith("value/mod.rs") or f.file.endswith("value/from.rs")):
+                continue
+            if f.local_ty(0) != "value::Value" or cfg.back_edges(f):
+                continue
+            if any(t["callee"].get("resolved") == f.path or f.path in F.callee_names(t) for _, t in f.calls()):
+                continue
+            out.add(f.path)
+        _VCTOR[key] = out
+    return _VCTOR[key]
+
+
 def helper_inline(crate, named=()):
     """Inline policy: the named wrappers plus every loop-free local helper of the parse module and every
     local byte predicate `fn(u8) -> bool`."""
@@ -197,8 +220,10 @@ def helper_inline(crate, named=()):
     # a named free function of the parse module tree keeps its role when it moves to a sibling module
     moved = {n.rsplit("::", 1)[1] for n in named if n.startswith("parse::") and "<" not in n}
 
+    vctors = value_ctors(crate)
+
     def inline(a, b):
-        return b.path in named or b.path in light or (b.crate == crate.name and scalar_fn(b)) or \
+        return b.path in named or b.path in light or b.path in vctors or (b.crate == crate.name and scalar_fn(b)) or \
             (b.crate == crate.name and b.kind == "fn" and b.path.startswith("parse::") and "<" not in b.path
              and b.path.rsplit("::", 1)[1] in moved)
     return inline
